@@ -50,13 +50,18 @@ const preludeStr = `; --- govc prelude: strings as an abstract sort with length/
 (define-fun gs.ascii ((a Str)) Bool (forall ((i Int)) (! (=> (and (<= 0 i) (< i (gs.len a))) (< (gs.at a i) 128)) :pattern ((gs.at a i)))))
 `
 
-const preludeArith = `; --- govc prelude: Go integer division ---
+// element positions inside a backing row; only in scripts that mention them, so that scripts
+// over tables and integers stay quantifier-free (and fail with a model)
+const preludeIx = `; --- govc prelude: element positions ---
 (declare-fun gs.ix (Int Int) Int)
 (declare-fun gs.ixinv (Int Int) Int)
 (assert (forall ((o Int) (i Int)) (! (= (gs.ixinv o (gs.ix o i)) i) :pattern ((gs.ix o i)))))
 (declare-fun gs.pos (Int) Int)
 (assert (forall ((o Int) (i Int)) (! (= (gs.pos (gs.ix o i)) (+ o i)) :pattern ((gs.ix o i)))))
 (assert (forall ((i Int)) (! (= (gs.ix 0 i) i) :pattern ((gs.ix 0 i)))))
+`
+
+const preludeArith = `; --- govc prelude: Go integer division ---
 (define-fun go.div ((a Int) (b Int)) Int (ite (>= a 0) (ite (> b 0) (div a b) (- (div a (- b)))) (ite (> b 0) (- (div (- a) b)) (div (- a) (- b)))))
 (define-fun go.mod ((a Int) (b Int)) Int (- a (* b (go.div a b))))
 (define-fun go.max ((a Int) (b Int)) Int (ite (>= a b) a b))
